@@ -136,15 +136,22 @@ def bootstrap(threads=None):
 
 
 class IdCounter(object):
-    """Deterministic replacement for uuid4-based ids."""
+    """Deterministic replacement for uuid4-based ids.
+
+    Like uuid4, an id is never handed out twice within one process: `epoch` grows with every reset (run or
+    fresh-process emulation), so a key left behind by an earlier run can never equal a new one.  The ids
+    themselves never enter an event log, only their equality structure matters.
+    """
 
     def __init__(self):
         self.n = 0
         self.prefix = "id"
+        self.epoch = 0
 
     def reset(self, prefix="id"):
         self.n = 0
-        self.prefix = prefix
+        self.epoch += 1
+        self.prefix = "%s%d" % (prefix, self.epoch)
 
     def __call__(self):
         self.n += 1
@@ -260,59 +267,105 @@ def import_all_bempp_modules():
             continue
 
 
+def _is_lib_instance(val):
+    """An instance of a class defined in bempp_cl (e.g. a parameter object or a cache object)."""
+    t = type(val)
+    mod = getattr(t, "__module__", "") or ""
+    if not (mod == "bempp_cl" or mod.startswith("bempp_cl.")):
+        return False
+    if isinstance(val, type) or not hasattr(val, "__dict__"):
+        return False
+    return True
+
+
+def _owners():
+    """All places where process-global state of the library can live: module dicts, class dicts of classes
+    defined there, and (to depth 3) the instance dicts of library objects held at module or class level."""
+    out = []
+    seen = set()
+    for mname, mod in _bempp_modules():
+        out.append(((mname,), mod.__dict__, mod))
+        for cname, cls in list(mod.__dict__.items()):
+            if isinstance(cls, type) and getattr(cls, "__module__", None) == mname:
+                out.append(((mname, cname), cls.__dict__, cls))
+    # instances reachable from module / class level
+    frontier = list(out)
+    for depth in range(3):
+        nxt = []
+        for key, d, owner in frontier:
+            for name, val in list(d.items()):
+                if name.startswith("__") or name in _SKIP_ATTRS:
+                    continue
+                if _is_lib_instance(val) and id(val) not in seen:
+                    seen.add(id(val))
+                    ent = (key + (name,), vars(val), val)
+                    out.append(ent)
+                    nxt.append(ent)
+        frontier = nxt
+    return out
+
+
 def capture_module_state():
-    """Snapshot of all module- and class-level containers and scalars of the bempp_cl package."""
+    """Snapshot of all module-, class- and module-level-object state of the bempp_cl package."""
     import copy as _copy
 
     state = {}
-    for mname, mod in _bempp_modules():
-        owners = [((mname, None), mod.__dict__, mod)]
-        for cname, cls in list(mod.__dict__.items()):
-            if isinstance(cls, type) and getattr(cls, "__module__", None) == mname:
-                owners.append(((mname, cname), cls.__dict__, cls))
-        for key, d, owner in owners:
-            names = {}
-            for name, kind, val in _state_items(d):
-                names[name] = (kind, val, _copy.copy(val) if kind == "c" else val)
-            state[key] = (owner, names)
+    for key, d, owner in _owners():
+        names = {}
+        for name, kind, val in _state_items(d):
+            names[name] = (kind, val, _copy.copy(val) if kind == "c" else val)
+        refs = {name: val for name, val in d.items() if not name.startswith("__") and name not in _SKIP_ATTRS and _is_lib_instance(val)}
+        state[key] = (owner, names, refs)
     return state
 
 
 def install_module_state(state):
-    """Put every captured container / scalar back (same objects, captured contents); drop newcomers."""
-    for mname, mod in _bempp_modules():
-        owners = [((mname, None), mod.__dict__, mod)]
-        for cname, cls in list(mod.__dict__.items()):
-            if isinstance(cls, type) and getattr(cls, "__module__", None) == mname:
-                owners.append(((mname, cname), cls.__dict__, cls))
-        for key, d, owner in owners:
-            if key not in state:
-                continue
-            _, names = state[key]
-            for name, kind, val in list(_state_items(d)):
-                if name not in names:
-                    try:
-                        delattr(owner, name)  # state that did not exist in the captured process
-                    except (AttributeError, TypeError):
-                        pass
-            for name, (kind, obj, saved) in names.items():
+    """Put every captured container / scalar / object reference back (same objects, captured contents) and
+    drop state that did not exist in the captured process."""
+    current = {key: (d, owner) for key, d, owner in _owners()}
+    for key, (owner, names, refs) in state.items():
+        d = vars(owner) if not isinstance(owner, type) else owner.__dict__
+        # library objects that were rebound (e.g. a cache object replaced by a new one) come back
+        for name, obj in refs.items():
+            try:
+                if d.get(name) is not obj:
+                    setattr(owner, name, obj)
+            except (AttributeError, TypeError):
+                pass
+        for name, kind, val in list(_state_items(d)):
+            if name not in names:
                 try:
-                    if kind == "c":
-                        if type(obj) is dict:
-                            obj.clear()
-                            obj.update(saved)
-                        elif type(obj) is list:
-                            obj[:] = saved
-                        else:
-                            obj.clear()
-                            obj.update(saved)
-                        if d.get(name) is not obj:
-                            setattr(owner, name, obj)
-                    else:
-                        if name not in d or d[name] is not obj and d[name] != obj or type(d.get(name)) is not type(obj):
-                            setattr(owner, name, obj)
+                    delattr(owner, name)  # state that did not exist in the captured process
                 except (AttributeError, TypeError):
                     pass
+        for name, (kind, obj, saved) in names.items():
+            try:
+                if kind == "c":
+                    if type(obj) is list:
+                        obj[:] = saved
+                    else:
+                        obj.clear()
+                        obj.update(saved)
+                    if d.get(name) is not obj:
+                        setattr(owner, name, obj)
+                else:
+                    cur = d.get(name, _SCALARS)
+                    if cur is not obj and (type(cur) is not type(obj) or cur != obj):
+                        setattr(owner, name, obj)
+            except (AttributeError, TypeError):
+                pass
+    # library objects that appeared at module level after the capture (lazily created caches) are removed
+    for key, (d, owner) in current.items():
+        if key in state:
+            _, _, refs = state[key]
+            for name, val in list(d.items()):
+                if name.startswith("__") or name in _SKIP_ATTRS:
+                    continue
+                if _is_lib_instance(val) and name not in refs and len(key) <= 2:
+                    try:
+                        delattr(owner, name)
+                    except (AttributeError, TypeError):
+                        pass
 
 
 _PRISTINE = None
@@ -388,7 +441,8 @@ class fresh_process(object):
         c.chunk = 256
         install_module_state(_PRISTINE)
         write_params(bempp_cl.api.GLOBAL_PARAMETERS, self.vector)
-        ID_COUNTER.prefix = "fresh%d" % ID_COUNTER.n
+        ID_COUNTER.epoch += 1
+        ID_COUNTER.prefix = "fresh%d.%d" % (ID_COUNTER.epoch, ID_COUNTER.n)
         self.cwd = os.getcwd()
         sub = os.path.join(scratch_dir(), "fresh")
         shutil.rmtree(sub, ignore_errors=True)
